@@ -2,6 +2,7 @@ package main
 
 import (
 	"fmt"
+	"os"
 	"go/types"
 	"sort"
 	"strings"
@@ -54,6 +55,8 @@ type VecEntry struct {
 type PathState struct {
 	PC      []*Term
 	Facts   map[uint32]bool
+	Bounds  map[uint32][2]uint64 // unsigned interval known for a BV term
+	IntMode bool
 	Forced  []int
 	Trace   []Decision
 	Nondets []NondetRec
@@ -67,6 +70,8 @@ type PathState struct {
 	LastModel    Model
 	Notes        []string
 	NoteVals     []Str
+	Aux          []*Term
+	ModelPCLen   int
 }
 
 type PathResult struct {
@@ -105,6 +110,128 @@ func (in *Interp) learn(c *Term, v bool) {
 		}
 	}
 	p.Facts[c.ID] = v
+	in.learnBounds(c, v)
+}
+
+// learnBounds records unsigned intervals from comparisons against constants.
+func (in *Interp) learnBounds(c *Term, v bool) {
+	p := in.path
+	upd := func(x *Term, lo, hi uint64) {
+		if x.IsConst() {
+			return
+		}
+		b, ok := p.Bounds[x.ID]
+		if !ok {
+			b = [2]uint64{0, mask(x.S.W)}
+		}
+		if lo > b[0] {
+			b[0] = lo
+		}
+		if hi < b[1] {
+			b[1] = hi
+		}
+		p.Bounds[x.ID] = b
+	}
+	a, b := c.A[0], c.A[1]
+	switch c.Op {
+	case OEq:
+		if v && a.S.K == KBV {
+			if b.IsConst() {
+				upd(a, b.C, b.C)
+			} else if a.IsConst() {
+				upd(b, a.C, a.C)
+			}
+		}
+	case OUle: // a <= b
+		if v {
+			if b.IsConst() {
+				upd(a, 0, b.C)
+			} else if a.IsConst() {
+				upd(b, a.C, ^uint64(0))
+			}
+		} else { // a > b
+			if b.IsConst() && b.C < ^uint64(0) {
+				upd(a, b.C+1, ^uint64(0))
+			} else if a.IsConst() && a.C > 0 {
+				upd(b, 0, a.C-1)
+			}
+		}
+	case OUlt: // a < b
+		if v {
+			if b.IsConst() && b.C > 0 {
+				upd(a, 0, b.C-1)
+			} else if a.IsConst() && a.C < ^uint64(0) {
+				upd(b, a.C+1, ^uint64(0))
+			}
+		} else { // a >= b
+			if b.IsConst() {
+				upd(a, b.C, ^uint64(0))
+			} else if a.IsConst() {
+				upd(b, 0, a.C)
+			}
+		}
+	}
+}
+
+func (in *Interp) boundsOf(x *Term) (uint64, uint64) {
+	if x.IsConst() {
+		return x.C, x.C
+	}
+	if b, ok := in.path.Bounds[x.ID]; ok {
+		return b[0], b[1]
+	}
+	if x.Op == OZExt {
+		return in.boundsOf(x.A[0])
+	}
+	if x.Op == OIte {
+		l1, h1 := in.boundsOf(x.A[1])
+		l2, h2 := in.boundsOf(x.A[2])
+		if l2 < l1 {
+			l1 = l2
+		}
+		if h2 > h1 {
+			h1 = h2
+		}
+		return l1, h1
+	}
+	return 0, mask(x.S.W)
+}
+
+// knownByBounds decides comparisons using recorded intervals.
+func (in *Interp) knownByBounds(c *Term) (bool, bool) {
+	switch c.Op {
+	case OEq:
+		if c.A[0].S.K != KBV {
+			return false, false
+		}
+		l1, h1 := in.boundsOf(c.A[0])
+		l2, h2 := in.boundsOf(c.A[1])
+		if h1 < l2 || h2 < l1 {
+			return false, true
+		}
+		if l1 == h1 && l2 == h2 && l1 == l2 {
+			return true, true
+		}
+	case OUle:
+		l1, h1 := in.boundsOf(c.A[0])
+		l2, h2 := in.boundsOf(c.A[1])
+		if h1 <= l2 {
+			return true, true
+		}
+		if l1 > h2 {
+			return false, true
+		}
+	case OUlt:
+		l1, h1 := in.boundsOf(c.A[0])
+		l2, h2 := in.boundsOf(c.A[1])
+		if h1 < l2 {
+			return true, true
+		}
+		if l1 >= h2 {
+			return false, true
+		}
+	}
+	return false, false
 }
 
 func (in *Interp) known(c *Term) (bool, bool) {
@@ -117,6 +244,9 @@ func (in *Interp) known(c *Term) (bool, bool) {
 	}
 	v, ok := in.path.Facts[c.ID]
 	if ok {
+		return v, true
+	}
+	if v, ok := in.knownByBounds(c); ok {
 		return v, true
 	}
 	switch c.Op {
@@ -155,17 +285,36 @@ func (in *Interp) feasible(c *Term) Result {
 	p := in.path
 	if p.LastModel != nil {
 		memo := map[uint32]*Term{}
-		if r := in.ts.Eval(c, p.LastModel, memo); r.IsConst() && r.Bool() && in.modelCoversVars(c) {
-			in.stats.ModelHits++
-			return Sat
+		// the model was captured for PC[:ModelPCLen]; it must also satisfy what was added since
+		valid := true
+		for _, q := range p.PC[p.ModelPCLen:] {
+			if r := in.ts.Eval(q, p.LastModel, memo); !(r.IsConst() && r.Bool() && in.modelCoversVars(q)) {
+				valid = false
+				break
+			}
+		}
+		if !valid {
+			p.LastModel = nil
+		} else {
+			p.ModelPCLen = len(p.PC)
+			if r := in.ts.Eval(c, p.LastModel, memo); r.IsConst() && r.Bool() && in.modelCoversVars(c) {
+				in.stats.ModelHits++
+				return Sat
+			}
 		}
 	}
 	conj := append(append([]*Term{}, p.PC...), c)
 	in.stats.BranchQ++
-	r := in.solver.Check(conj)
+	r := in.check(conj)
 	if r == Sat {
 		in.captureModel()
-		in.solver.EndQuery()
+		in.endQuery()
+	}
+	if r == Unknown {
+		if d := os.Getenv("SYMGO_DUMP"); d != "" {
+			in.dumpN++
+			os.WriteFile(fmt.Sprintf("%s/unknown-feas-%d-%d.smt2", d, os.Getpid(), in.dumpN), []byte(in.cur.Script(conj)), 0o644)
+		}
 	}
 	return r
 }
@@ -205,7 +354,13 @@ func (in *Interp) captureModel() {
 			vars = append(vars, n.Var)
 		}
 	}
-	m, err := in.solver.Model(vars)
+	vars = append(vars, p.Aux...)
+	p.ModelPCLen = len(p.PC)
+	if in.fallbackSat {
+		p.LastModel = in.pendingModel
+		return
+	}
+	m, err := in.cur.Model(vars)
 	if err == nil {
 		p.LastModel = m
 	} else {
@@ -344,7 +499,7 @@ func (in *Interp) concretize(t *Term, what string) *Term {
 		}
 		conj := append(append([]*Term{}, p.PC...), excluded...)
 		in.stats.BranchQ++
-		r := in.solver.Check(conj)
+		r := in.check(conj)
 		if r != Sat {
 			if k == 0 {
 				panic(pathEnd{Kind: "infeasible", Msg: "concretize: " + what})
@@ -352,7 +507,7 @@ func (in *Interp) concretize(t *Term, what string) *Term {
 			break
 		}
 		in.captureModel()
-		in.solver.EndQuery()
+		in.endQuery()
 		val := ts.Eval(t, p.LastModel, map[uint32]*Term{})
 		if !val.IsConst() {
 			in.unsupported("concretize: cannot evaluate %s", what)
@@ -366,7 +521,7 @@ func (in *Interp) concretize(t *Term, what string) *Term {
 			for len(vals) < capN {
 				conj2 := append(append([]*Term{}, p.PC...), ex...)
 				in.stats.BranchQ++
-				r2 := in.solver.Check(conj2)
+				r2 := in.check(conj2)
 				if r2 != Sat {
 					if r2 == Unknown {
 						p.Notes = append(p.Notes, "concretize: unknown while enumerating "+what)
@@ -381,9 +536,13 @@ func (in *Interp) concretize(t *Term, what string) *Term {
 							vars = append(vars, n.Var)
 						}
 					}
-					m, _ = in.solver.Model(vars)
+					if in.fallbackSat {
+						m = in.pendingModel
+					} else {
+						m, _ = in.cur.Model(vars)
+					}
 				}
-				in.solver.EndQuery()
+				in.endQuery()
 				v2 := ts.Eval(t, m, map[uint32]*Term{})
 				if !v2.IsConst() {
 					break
@@ -639,7 +798,7 @@ func (in *Interp) evalPureBlock(fn *ssa.Function, fi *fnInfo, env []Value, b, pr
 // ---- running one path
 
 func (in *Interp) RunPath(harness *ssa.Function, args []Value, forced []int) (res PathResult) {
-	in.path = &PathState{Facts: map[uint32]bool{}, Forced: forced}
+	in.path = &PathState{Facts: map[uint32]bool{}, Bounds: map[uint32][2]uint64{}, Forced: forced}
 	in.siblings = nil
 	in.depth = 0
 	in.frozen, in.frozenMaps, in.frozenHits = nil, nil, nil
@@ -676,3 +835,87 @@ func prefixKey(p []int) string {
 }
 
 var _ = sort.Ints
+
+// check routes a query to the INT-encoded solver when the path asked for it
+// and every term is expressible there, else to the bit-vector solver.
+func (in *Interp) check(conj []*Term) Result {
+	in.cur = in.solver
+	if in.path != nil && in.path.IntMode {
+		if in.isolver == nil {
+			name, tmo := "z3-new", 2500
+			if e := os.Getenv("SYMGO_INT_SOLVER"); e != "" {
+				name, tmo = e, in.cfg.TimeoutMs
+			}
+			s, err := NewIntSolver(name, in.ts, tmo)
+			if err == nil {
+				in.isolver = s
+			}
+		}
+		if in.isolver != nil {
+			ok := true
+			for _, c := range conj {
+				if !in.isolver.intEncodable(c) {
+					ok = false
+					break
+				}
+			}
+			if ok {
+				in.cur = in.isolver
+				in.stats.IntQ++
+			}
+		}
+	}
+	r := in.cur.Check(conj)
+	in.pendingModel = nil
+	if r == Unknown {
+		// portfolio fallback: the same text on the other solvers, one shot
+		script := in.cur.Script(conj)
+		var vars []*Term
+		if in.path != nil {
+			for _, n := range in.path.Nondets {
+				if n.Var != nil {
+					vars = append(vars, n.Var)
+				}
+			}
+			vars = append(vars, in.path.Aux...)
+		}
+		// only variables that occur in the script can be asked for
+		var present []*Term
+		for _, v := range vars {
+			if strings.Contains(script, "(declare-const "+v.Name+" ") {
+				present = append(present, v)
+			}
+		}
+		for _, alt := range []string{"cvc5", "z3-new", "z3"} {
+			if alt == in.cur.name && in.cur.timeoutMs >= in.cfg.TimeoutMs {
+				continue
+			}
+			in.stats.Fallbacks++
+			r2, m := OneShotModel(alt, script, present, in.cfg.TimeoutMs)
+			if r2 == Unsat {
+				in.cur.NUnknown--
+				in.cur.NUnsat++
+				return Unsat
+			}
+			if r2 == Sat && m != nil {
+				in.cur.NUnknown--
+				in.cur.NSat++
+				in.pendingModel = m
+				in.fallbackSat = true
+				return Sat
+			}
+		}
+	}
+	in.fallbackSat = false
+	return r
+}
+
+// endQuery closes a Sat query (the incremental solver holds an open frame
+// unless the verdict came from a one-shot fallback).
+func (in *Interp) endQuery() {
+	if in.fallbackSat {
+		in.fallbackSat = false
+		return
+	}
+	in.cur.EndQuery()
+}
